@@ -5,6 +5,7 @@ REGISTRY = {
     "C03": "core",
     "C05": "c05",
     "C10": "core",
+    "C12": "c12",
     "C16": "c16",
     "C11": "core",
 }
